@@ -56,6 +56,22 @@ def bernoulli_events(par, ids, seed):
                 except Exception as ex:  # noqa
                     e["exc"] = type(ex).__name__
                 evs.append(e)
+    # probabilities a hair below / above a twentieth (far more than a rounding error, far less than 1/n)
+    for a in range(1, PD + 1):
+        for n in par["ns"]:
+            for d_, side in ((1e-12, "below"), (1e-10, "below"), (1e-11, "above")):
+                if side == "above" and a == PD:
+                    continue
+                e = {"id": next(ids), "cid": 0, "op": "bernoulli_near", "exc": "", "a": a, "n": n, "side": side,
+                     "len": 0, "ones": 0, "binary": True}
+                try:
+                    p = a / PD - d_ if side == "below" else a / PD + d_
+                    d = np.asarray(BernoulliDataset(p=p, n=n).sample(random=False, rng=np.random.default_rng(seed + a)))
+                    e["len"], e["ones"] = int(d.shape[0]) if d.ndim == 1 else -1, int((d == 1).sum())
+                    e["binary"] = bool(np.isin(d, [0, 1]).all())
+                except Exception as ex:  # noqa
+                    e["exc"] = type(ex).__name__
+                evs.append(e)
     return evs
 
 
@@ -93,46 +109,67 @@ def normal_events(ids, tier):
     evs = []
     zs = [-4.0, -2.5, -1.0, -0.5, 0.0, 0.25, 1.0, 2.0, 3.5]
     params = [(1.0, -1.0, 1.0, 1.0), (3.0, None, 3.75, 3.0), (0.5, -2.0, 0.5, 2.0), (-1.0, 2.0, 2.0, 0.25)]
-    for (mp, mn, sp, sn) in params:
+    def measure(ds, mp, sp, sn, e):
+        mun = ds.mu_neg
+        e["fnr6"] = [fx6(x) for x in ds.fnr(np.array([mp + z * sp for z in zs]))]
+        e["fpr6"] = [fx6(x) for x in ds.fpr(np.array([mun + z * sn for z in zs]))]
+        # round trips, relative in the tails: compare r with fnr(threshold_at_fnr(r)) scaled
+        rates = [0.5, 0.1, 0.9, 1e-3, 1e-6, 1e-9, 1e-12, 1 - 1e-6]
+        rt = []
+        for r_ in rates:
+            scale = 1e6 / r_ if r_ < 1e-3 else 1e6
+            f1 = ds.fnr(ds.threshold_at_fnr(r_))
+            f2 = ds.fpr(ds.threshold_at_fpr(r_))
+            rt.append([int(round(r_ * scale)), int(round(float(f1) * scale)), int(round(float(f2) * scale))])
+        e["rt"] = rt
+        ok = True
+        for kw in ({"fnr": np.array(rates)}, {"fpr": np.array(rates)}):
+            c = ds.roc(**kw)
+            ok = ok and np.allclose(ds.fnr(c.thresholds), c.fnr, rtol=1e-9, atol=0) \
+                and np.allclose(ds.fpr(c.thresholds), c.fpr, rtol=1e-9, atol=0) \
+                and len(c.thresholds) == len(rates)
+            given = c.fnr if "fnr" in kw else c.fpr
+            ok = ok and np.allclose(given, np.array(rates), rtol=1e-6, atol=0)
+            t2 = ds.threshold_at_fnr(np.array(rates)) if "fnr" in kw else ds.threshold_at_fpr(np.array(rates))
+            ok = ok and np.array_equal(np.asarray(c.thresholds), np.asarray(t2))
+        e["roc_ok"] = bool(ok)
+        e["scalar_ok"] = bool(isinstance(ds.fnr(0.3), float) and isinstance(ds.fpr(0.3), float)
+                              and isinstance(ds.threshold_at_fnr(0.3), float)
+                              and isinstance(ds.threshold_at_fpr(0.3), float)
+                              and np.asarray(ds.fnr(np.zeros((2, 3)))).shape == (2, 3))
+        errs = 0
+        for kw in ({}, {"fnr": np.array([0.1]), "fpr": np.array([0.1])}):
+            try:
+                ds.roc(**kw)
+            except ValueError:
+                errs += 1
+        e["roc_errors_ok"] = errs == 2
+
+    def blank(history):
+        return {"id": next(ids), "cid": 0, "op": "normal", "exc": "", "z6": [int(z * 1e6) for z in zs],
+                "fnr6": [], "fpr6": [], "rt": [], "roc_ok": True, "scalar_ok": True, "roc_errors_ok": True,
+                "history": history}
+
+    for k, (mp, mn, sp, sn) in enumerate(params):
         for sc in ("pos", "neg"):
-            e = {"id": next(ids), "cid": 0, "op": "normal", "exc": "", "z6": [int(z * 1e6) for z in zs],
-                 "fnr6": [], "fpr6": [], "rt": [], "roc_ok": True, "scalar_ok": True, "roc_errors_ok": True}
+            e = blank("fresh")
             try:
                 ds = NormalDataset(mu_pos=mp, mu_neg=mn, sigma_pos=sp, sigma_neg=sn, score_class=sc)
-                mun = ds.mu_neg
-                e["fnr6"] = [fx6(x) for x in ds.fnr(np.array([mp + z * sp for z in zs]))]
-                e["fpr6"] = [fx6(x) for x in ds.fpr(np.array([mun + z * sn for z in zs]))]
-                # round trips, relative in the tails: compare r with fnr(threshold_at_fnr(r)) scaled
-                rates = [0.5, 0.1, 0.9, 1e-3, 1e-6, 1e-9, 1e-12, 1 - 1e-6]
-                rt = []
-                for r_ in rates:
-                    scale = 1e6 / r_ if r_ < 1e-3 else 1e6
-                    f1 = ds.fnr(ds.threshold_at_fnr(r_))
-                    f2 = ds.fpr(ds.threshold_at_fpr(r_))
-                    rt.append([int(round(r_ * scale)), int(round(float(f1) * scale)), int(round(float(f2) * scale))])
-                e["rt"] = rt
-                ok = True
-                for kw in ({"fnr": np.array(rates)}, {"fpr": np.array(rates)}):
-                    c = ds.roc(**kw)
-                    ok = ok and np.allclose(ds.fnr(c.thresholds), c.fnr, rtol=1e-9, atol=0) \
-                        and np.allclose(ds.fpr(c.thresholds), c.fpr, rtol=1e-9, atol=0) \
-                        and len(c.thresholds) == len(rates)
-                    given = c.fnr if "fnr" in kw else c.fpr
-                    ok = ok and np.allclose(given, np.array(rates), rtol=1e-6, atol=0)
-                    t2 = ds.threshold_at_fnr(np.array(rates)) if "fnr" in kw else ds.threshold_at_fpr(np.array(rates))
-                    ok = ok and np.array_equal(np.asarray(c.thresholds), np.asarray(t2))
-                e["roc_ok"] = bool(ok)
-                e["scalar_ok"] = bool(isinstance(ds.fnr(0.3), float) and isinstance(ds.fpr(0.3), float)
-                                      and isinstance(ds.threshold_at_fnr(0.3), float)
-                                      and isinstance(ds.threshold_at_fpr(0.3), float)
-                                      and np.asarray(ds.fnr(np.zeros((2, 3)))).shape == (2, 3))
-                errs = 0
-                for kw in ({}, {"fnr": np.array([0.1]), "fpr": np.array([0.1])}):
-                    try:
-                        ds.roc(**kw)
-                    except ValueError:
-                        errs += 1
-                e["roc_errors_ok"] = errs == 2
+                measure(ds, mp, sp, sn, e)
+            except Exception as ex:  # noqa
+                e["exc"] = f"{type(ex).__name__}: {ex}"[:150]
+                ds = None
+            evs.append(e)
+            if ds is None:
+                continue
+            # history: the public fields of the SAME (already queried) object are re-assigned, as in a
+            # parameter sweep, and the analytic helpers are queried again
+            mp2, mn2, sp2, sn2 = params[(k + 1) % len(params)]
+            mn2 = -mp2 if mn2 is None else mn2
+            e = blank("fields_reassigned")
+            try:
+                ds.mu_pos, ds.mu_neg, ds.sigma_pos, ds.sigma_neg = mp2, mn2, sp2, sn2
+                measure(ds, mp2, sp2, sn2, e)
             except Exception as ex:  # noqa
                 e["exc"] = f"{type(ex).__name__}: {ex}"[:150]
             evs.append(e)
